@@ -5,6 +5,7 @@
 -/
 import ASV.Proofs.RegionsComponents
 import ASV.Proofs.RegionsInv
+import ASV.Proofs.RegionsOrder
 namespace ASV.C06
 open ASV ASV.Regions ASV.Components
 
@@ -93,6 +94,31 @@ theorem no_stale_links (s : State) (hi : Inv s) :
     (∀ f ∈ s.protos, ∀ c, s.parentOf f.id = some c → ∃ c' ∈ s.cands ++ s.pool, c'.id = c ∧ f.id ∈ c'.kids) ∧
     (∀ i p, s.regionOfCds i = some p → ∃ r ∈ s.regions, r.id = p ∧ i ∈ r.cdses) :=
   ⟨hi.parentA, hi.parentP, hi.cdsLink⟩
+
+/-! ### numbered in location order (linear records) -/
+
+/-- On a linear record, after **every** history whose added areas are non-empty single spans inside
+    the record, each of the four lists is sorted by location — by start, the longer first on equal
+    starts (`lineKey`) — so with `numbers_are_positions` the features are numbered 1..n in location
+    order.  (`bisect_left` is modelled as the binary search it is, the scan of `add_region` as written;
+    candidate clusters and regions get the hull `connect_locations` returns on a line.) -/
+theorem numbered_in_location_order_linear (len : Int) (cds : List Loc) (ops : List Op) (s : State)
+    (hops : ∀ op ∈ ops, OpLine len op)
+    (h : run { len := len, circular := false, cds := cds } ops = .ok s) :
+    SortedBy lkey s.protos ∧ SortedBy lkey s.cands ∧ SortedBy lkey s.subs ∧ SortedBy lkey s.regions := by
+  have := run_sorted ops (init_inv len false cds) (init_sorted len cds) hops h
+  exact ⟨this.sP, this.sC, this.sS, this.sR⟩
+
+/-- the sort key of the model is the spec's "location order" key on such spans -/
+theorem spec_order_key_agrees (L len : Int) (l : Loc) (h : LineArea len l) : orderKey L l = lineKey l := by
+  obtain ⟨p, rfl, _⟩ := h
+  simp [orderKey, firstBase, lineKey, Loc.parts]
+
+/-  On a circular record the same statement is **false** in general (`full_record_order_witness`,
+    KF-C06-full-record-order) and is not proved under the exclusion either; the executable
+    `sortedByKey` check runs on every dump of the correspondence.
+    `def numbered_in_location_order_ring : Prop := ∀ history on a ring without a full-record single-part
+       span next to an origin-spanning one, every list is sorted by `orderKey L`` -/
 
 /-! ### region creation, any record (circular included), when it succeeds -/
 
